@@ -14,6 +14,7 @@ import WD.Proofs.Pipeline.ReplayRun
 import WD.Proofs.Pipeline.ReplayFlat
 import WD.Proofs.Pipeline.Burst
 import WD.Proofs.Pipeline.BurstFiles
+import WD.Proofs.Pipeline.BurstFlat
 import WD.Proofs.Pipeline.Theorems
 namespace WD.C01
 open WD WD.Pipe
@@ -95,6 +96,38 @@ theorem burst_files_partial (fs0 : FS) (hwf : fs0.WF) (full : Bool) (pre burst :
     · rfl
     · exact absurd ((stopped_iff _ pre inv hs hc hv).1 h) hroot
   exact burst_files _ burst (hr.2.2 hst) hst hr.2.1 hb
+
+/-- **back to back, non-recursive watch**: after any drained history, ANY burst of valid operations that does not remove
+    the watched root - files and directories created, removed, renamed, moved in and out, at any depth - read as ONE batch
+    after the last of them leaves the observer in the same state and delivers the same events in the same order as the same
+    operations drained one by one.  (One kernel watch, maps that never change, no synthetic events: the non-recursive
+    observer never looks at the file system; the kernel's cookies are fresh per rename, so pairing does not depend on the
+    batching either.)  With `replay_nonrecursive_partial`: the replay of the root's direct children holds for bursts too. -/
+theorem burst_nonrecursive_partial (fs0 : FS) (hwf : fs0.WF) (full : Bool) (pre burst : List Op)
+    (hv : allValid (Sys.start fs0 false full) pre = true) (hroot : Op.rmdir ["W"] ∉ pre)
+    (hb : allValidNoRoot ((Sys.start fs0 false full).run pre).1 burst = true) :
+    ((Sys.start fs0 false full).run pre).1.burst burst =
+      ((((Sys.start fs0 false full).run pre).1.run burst).1, (((Sys.start fs0 false full).run pre).1.run burst).2.flatten) := by
+  obtain ⟨inv, hs, hc, _, _⟩ := start_flat fs0 hwf full
+  have hr := run_flat _ pre inv hs hc hv
+  have hst : ((Sys.start fs0 false full).run pre).1.stopped = false := by
+    cases h : ((Sys.start fs0 false full).run pre).1.stopped
+    · rfl
+    · exact absurd ((stopped_iff_flat _ pre inv hs hc hv).1 h) hroot
+  exact burst_flat _ burst (hr.2.2 hst) hst hr.2.1 hb
+
+/-- non-vacuity: `mkdir -p` with a file, a directory rename, a move out and a file rename in one batch -/
+example :
+    let s := ((Sys.start FS.init false false).run [.create ["W", "a"]]).1
+    let ops := [Op.mkdir ["W", "d"], .mkdir ["W", "d", "dd"], .create ["W", "d", "x"], .rename ["W", "d"] ["W", "e"],
+                .rename ["W", "a"] ["W", "b"], .rename ["W", "e"] ["O", "e"]]
+    allValidNoRoot s ops = true ∧
+    (s.burst ops).2.map PEv.toEvent =
+      [⟨.DirCreatedEvent, "W/d", "", false⟩, ⟨.DirModifiedEvent, "W", "", false⟩,
+       ⟨.DirMovedEvent, "W/d", "W/e", false⟩, ⟨.DirModifiedEvent, "W", "", false⟩, ⟨.DirModifiedEvent, "W", "", false⟩,
+       ⟨.FileMovedEvent, "W/a", "W/b", false⟩, ⟨.DirModifiedEvent, "W", "", false⟩, ⟨.DirModifiedEvent, "W", "", false⟩,
+       ⟨.DirDeletedEvent, "W/e", "", false⟩, ⟨.DirModifiedEvent, "W", "", false⟩] := by
+  decide +kernel
 
 /-- non-vacuity: create, rename twice, replace another file by renaming onto it, move out, move a file in - one batch -/
 example :
